@@ -31,10 +31,7 @@ f += ["", "Observations that are *not* findings (no listed property is broken): 
       "`asm.Batcher` re-emits earlier batch items if batch lines are not at the end of a node (the",
       "documentation requires the end); pg `Close()` returns `ErrSingleTx` in plain single mode; pg `Dump`",
       "commits while its rows are still being read (listing is specified for the filesystem backend only);",
-      "one `persist.Persister` object reused with `WithFlush()` for several *different* sessions keeps the old",
-      "scope maps in the backing array of `Cache.Cache`, and `cbor.Unmarshal` merges the next session's scopes",
-      "into them (reported by a sub-agent, probed: needs sessions whose scopes hold different keys) — every listed",
-      "property gives each session its own state/cache objects, so this is outside them; `state.SetFlag`'s range",
+      "`state.SetFlag`'s range",
       "check `bitIndex+1 > BitSize` wraps for index 2^32-1 (still a panic, as the documented precondition says);",
       "`dev/disasm` prints the listing with `fmt.Printf(listing)`, so a `%` in a symbol is garbled on output (the",
       "library's disassembler, which C14 judges, is right); pg and gdbm `Dump` clear the handle's language as a",
